@@ -12,9 +12,9 @@ import (
 // valSpec is one member of a value alphabet: either a literal snippet written into the
 // formula, or a name bound in the data map.
 type valSpec struct {
-	Name string      // short label used in case descriptions
-	Expr string      // text written into the formula
-	Data interface{} // if non-nil-able: bound under Expr in the data map (when Bound)
+	Name  string      // short label used in case descriptions
+	Expr  string      // text written into the formula
+	Data  interface{} // if non-nil-able: bound under Expr in the data map (when Bound)
 	Bound bool
 }
 
@@ -27,13 +27,13 @@ type zooStruct struct {
 
 var zooTime = time.Date(2024, 2, 29, 13, 45, 59, 123000000, time.UTC)
 
-func goodFunc(x interface{}) (interface{}, error)          { return x, nil }
-func errFunc(x interface{}) (interface{}, error)           { return nil, errors.New("boom") }
-func variadicFunc(xs ...interface{}) (interface{}, error)  { return len(xs), nil }
-func strIntsFunc(s string, xs []int) (interface{}, error)  { return len(xs), nil }
-func oneResultFunc() int                                   { return 1 }
-func threeResultFunc() (int, int, error)                   { return 1, 2, nil }
-func noErrTypeFunc() (int, int)                            { return 1, 2 }
+func goodFunc(x interface{}) (interface{}, error)           { return x, nil }
+func errFunc(x interface{}) (interface{}, error)            { return nil, errors.New("boom") }
+func variadicFunc(xs ...interface{}) (interface{}, error)   { return len(xs), nil }
+func strIntsFunc(s string, xs []int) (interface{}, error)   { return len(xs), nil }
+func oneResultFunc() int                                    { return 1 }
+func threeResultFunc() (int, int, error)                    { return 1, 2, nil }
+func noErrTypeFunc() (int, int)                             { return 1, 2 }
 func ctxFunc(ctx context.Context, s string) (string, error) { return s, nil }
 
 var nilFunc func() (int, error)
